@@ -188,7 +188,13 @@ def _wrap_scalar_fn(f, x):
         return numpy.nan
     with warnings.catch_warnings():
         warnings.simplefilter("ignore")
-        res = f(x)
+        try:
+            res = f(x)
+        except (ValueError, OverflowError, ZeroDivisionError):
+            # math.log(0), math.sqrt(-1), math.exp(800) raise where numpy (the Pandas meaning) returns -inf / nan / inf:
+            # one bad cell must not fail the whole query
+            numpy_f = getattr(numpy, getattr(f, "__name__", ""), None)
+            res = float(numpy_f(x)) if numpy_f is not None else numpy.nan
     if isinstance(res, int) and (not isinstance(res, bool)) and (abs(res) >= 2**63):
         res = float(res)  # SQLite integers are 64 bit (floor / ceil of a huge float)
     return res
@@ -209,7 +215,16 @@ def _wrap_scalar_fn2(f, x, y):
         return numpy.nan
     with warnings.catch_warnings():
         warnings.simplefilter("ignore")
-        return f(x, y)
+        try:
+            return f(x, y)
+        except (ValueError, OverflowError, ZeroDivisionError):
+            # math.pow(0.0, -1), math.pow(-1, 0.5), math.fmod(x, 0): as numpy, a value not an exception
+            numpy_f = getattr(
+                numpy, {"pow": "power"}.get(f.__name__, f.__name__), None
+            )
+            return (
+                float(numpy_f(float(x), float(y))) if numpy_f is not None else numpy.nan
+            )
 
 
 def _wrap_numpy_fn(f, x):
